@@ -10,7 +10,7 @@ git -C /repo worktree prune
 git -C /repo worktree add -q --detach $BX/repo HEAD
 rsync -a --exclude target --exclude replays --exclude .git /verif/ $BX/verif/
 sed -i "s|path = \"/repo\"|path = \"$BX/repo\"|" $BX/verif/mc/Cargo.toml
-OUT=/verif/benign/results.tsv
+OUT=${BENIGN_OUT:-/verif/benign/results.tsv}
 echo -e "change\ttests\tsilent\talarms" > $OUT
 ALL="${BENIGN_CHECKS:-C01 C02 C03 C04 C05 C06 C07 C08 C09 C10 C11 C12 C13 C14 C15 C16 C17 C18 C19}"
 [ $# -eq 0 ] && set -- /verif/benign/B*
